@@ -42,6 +42,7 @@ list-labeling papers, "position" elsewhere in Grist code, and "key" in sortedcon
 import bisect
 import itertools
 import math
+import sys
 import struct
 
 from sortedcontainers import SortedList, SortedListWithKey
@@ -260,9 +261,12 @@ class ListWithAdjustments(object):
     assert count > 0
     begin = self._adj_get_key(index - 1) if index > 0 else 0.0
     end = self._adj_get_key(index) if index < len(self._orig_list) else begin + count + 1
-    if begin < 0 or end <= 0 or math.isinf(max(begin, end)):
+    if (begin < 0 or end <= 0 or math.isinf(max(begin, end))
+        or 0 < begin < sys.float_info.min or end < sys.float_info.min):
       # This should only happen if we have some invalid positions (e.g. from before we started
-      # using this logic). In this case, just renumber everything 1 through n (leaving space so
+      # using this logic), or positions so close to zero that they are subnormal floats, which
+      # range_around_float() can't handle (it relies on full 53-bit precision). In this case, just
+      # renumber everything 1 through n (leaving space so
       # that the count insertions take the first count integers).
       self._insertions.update([begin if index > 0 else float('-inf')] * count)
       self._adjust_all()
